@@ -42,6 +42,39 @@ META = {
     "C09": ("outputs", "offline checker over sequence interpolants (Craig + path property)",
             "k>=3 ordered groups: each I_j is a Craig interpolant for the first j groups vs the rest and "
             "I_j and G_(j+1) imply I_(j+1).", TB, "4/C09"),
+    "C10": ("trace", "own resolution-proof replay checker over printed proofs + leaf oracle over the hook trace of the same run",
+            "Every get-proof output of unsat-biased incremental scripts is parsed and replayed: names bound once before use, "
+            "pivots with opposite signs, stated resolvents, empty final clause; each leaf must be the activation of an ACTIVE "
+            "level, a valid theory lemma, or implied by the roots recorded for the active levels.",
+            "Roots come from the hook trace (C13 covers roots vs assertions); z3+cvc5 for leaf validity; printer ambiguity of "
+            "unit clauses is resolved in the solver's favour.", "4/C10"),
+    "C11": ("trace", "offline validity check (z3, confirmed by cvc5) of every theory clause recorded by hooks",
+            "Hooks record every theory conflict, propagation reason, split clause and root-level theory deduction/conflict "
+            "(with the level-0 trail it rests on); each distinct clause must be valid in the background theory.",
+            "Terms are printed by the solver's printer; z3 5.1 + cvc5 decide validity; only clauses produced by the executed "
+            "workload are seen.", "4/C11"),
+    "C12": ("trace", "own reverse-unit-propagation checker over the recorded clause stream",
+            "Hooks record input, theory, learnt, eliminated and strengthened clauses and assumptions in emission order; every "
+            "derived clause must be RUP over what was known before it and every unsat reached by search must be a UP conflict "
+            "under the assumptions.",
+            "Checker keeps all clauses (no deletion): sound for 'is a consequence'; only executed derivations are seen.", "4/C12"),
+    "C13": ("trace", "offline implication/equisatisfiability check between recorded assertions and recorded roots",
+            "At every check-sat the user assertions of the active frames and the roots handed to the cnfizer are compared: "
+            "roots imply assertions, and satisfiable assertions have satisfiable roots (z3, confirmed by cvc5).",
+            "z3 5.1 + cvc5; auxiliary symbols are free in the implication check.", "4/C13"),
+    "C14": ("apiharness", "API harness + equivalence oracle (z3, counter-models confirmed by cvc5)",
+            "Random well-sorted constructor calls through the public mk* functions; the printed result must be equivalent to "
+            "the operator applied to the intended meaning of the arguments.",
+            "Intended meaning is composed by the harness from argument texts, never from the solver's output; depth and "
+            "argument tuples are sampled.", "4/C14"),
+    "C15": ("apiharness", "reference-model monitor: FastRational vs GMP on a boundary grid and random operands (ASan+UBSan)",
+            "Every operation of the statement is compared with mpq/mpz on ~950 boundary rationals (three construction "
+            "histories each) and random operands; representation, canonical form, == and hash of equal values are checked.",
+            "GMP is the reference; pairs are a grid + random sample, not all pairs.", "4/C15"),
+    "C16": ("apiharness", "exhaustive short strings + long random literals against an own exact literal grammar (API harness and executable)",
+            "Accepted strings must be well-formed literals denoting their exact base-10 value and print back exactly; the "
+            "executable must not accept a literal and silently read another value; no crash.",
+            "Own lenient literal grammar and python Fractions as oracle; exhaustive only up to length 4 (quick) / 6 (thorough).", "4/C16"),
     "C18": ("procmon", "AddressSanitizer+UBSan build of the executable under injected-problem, mutation and grammar workloads",
             "Every run of the sanitizer build (file and pipe mode) must end without signal, sanitizer report or uncaught "
             "exception, exit in {0,1}; exactly-one-injected-problem scripts must print a diagnostic and exit non-zero; a "
@@ -55,6 +88,14 @@ META = {
             "Scripts that print containers (models, cores, interpolants, proofs, assignments) are run 3+1 times; outputs "
             "and exit status must be byte-identical.",
             "ASLR is enabled on the machine (checked and recorded); 4 runs per script.", "4/C23"),
+    "C26": ("trace", "own exact-arithmetic checker of the Farkas certificates recorded by a hook",
+            "Each recorded (literal, coefficient) explanation of an arithmetic conflict is summed in exact rationals: positive "
+            "coefficients, all variables cancel, contradictory constant.",
+            "Atoms are read in the solver's normal form (<= c poly); negative integer literals are tightened by one.", "4/C26"),
+    "C28": ("apiharness", "invariant monitor in the API harness (re-construction, commuted construction, term-table audit)",
+            "Every constructor call is repeated (same identity required), and/or/+/* are re-called with reversed arguments, and "
+            "the whole term table is audited for duplicates and child-before-parent ids.",
+            "Order-insensitivity only demanded of constructors that sort their arguments (and/or/+/*).", "4/C28"),
     "C29": ("scriptdiff", "differential runtime monitoring on out-of-fragment scripts",
             "Scripts generated with a richer profile than the declared logic; each command must be rejected or every "
             "definitive answer must agree with the reference consensus on the accepted assertions.", TB, "4/C29"),
@@ -110,13 +151,18 @@ def main():
 
 
 NA_REASON = {}
-HOOK_COMMITS = []
+HOOK_COMMITS = ["d086e88"]
 ENGINES = [
     {"name": "scriptdiff", "path": "vlib/checks/answers.py, vlib/checks/history.py",
      "serves_properties": ["C01", "C02", "C04", "C05", "C29", "C30"],
      "kind_free_text": "seeded script generator + opensmt executable + reference-solver consensus / self-consistency oracles"},
     {"name": "procmon", "path": "vlib/checks/procmon.py", "serves_properties": ["C18", "C20", "C23"],
      "kind_free_text": "process-level monitors of the opensmt executable (sanitizer build, pipe/file differential, replicated runs)"},
+    {"name": "trace", "path": "vlib/checks/trace.py, vlib/checks/proofs.py, /repo/src/common/VerifHooks.h",
+     "serves_properties": ["C10", "C11", "C12", "C13", "C26"],
+     "kind_free_text": "guarded hooks writing an event log (assertions, roots, clause stream, theory clauses, Farkas certificates) + offline checkers"},
+    {"name": "apiharness", "path": "harness/*.cc, vlib/checks/apiharness.py", "serves_properties": ["C14", "C15", "C16", "C28"],
+     "kind_free_text": "C++ harnesses linked against libopensmt.a (ASan/UBSan or release flavour) with reference-model oracles"},
     {"name": "outputs", "path": "vlib/checks/models.py, cores.py, itp.py, vlib/outputs.py",
      "serves_properties": ["C03", "C06", "C07", "C08", "C09"],
      "kind_free_text": "offline checkers over what opensmt prints (models, values, assignments, cores, interpolants)"},
